@@ -327,7 +327,24 @@ func (w *c05World) templates() []c05Tmpl {
 		}
 		add(o, &storagetypes.MsgPostFile{Creator: A(o), Merkle: f3.Root(), FileSize: big, MaxProofs: mp, Expires: c.Height + 14_400 + int64(r.Intn(30000)), Note: "{}"})
 	}
+	if r.Chance(0.4) {
+		// a small, provable paid-for file with an astronomically large (valid) replication count
+		f4 := gen.NewFile(randBytes(r.Rng, int64(1+r.Intn(40))), 1024)
+		w.cands[string(f4.Root())] = f4
+		mp := []int64{1 << 31, 1 << 45, math.MaxInt64 / f4.Size(), 1 << 20}[r.Intn(4)]
+		add(o, &storagetypes.MsgPostFile{Creator: A(o), Merkle: f4.Root(), FileSize: f4.Size(), MaxProofs: mp, Expires: c.Height + 14_400 + int64(r.Intn(30000)), Note: "{}"})
+	}
 	add(o, &storagetypes.MsgBuyStorage{Creator: A(o), ForAddress: A(r.Intn(2)), DurationDays: int64(30 + r.Intn(400)), Bytes: int64(1+r.Intn(30)) * 1_000_000_000, PaymentDenom: "ujkl", Referral: ""})
+	if obs, err := w.Observe(); err == nil && len(obs.Gauges) > 0 {
+		// the escrow account of a live gauge receives tokens the gauge does not record: as the referrer of a purchase
+		// (commission), and by plain transfers in the gauge's denom and in a denom it does not hold
+		g := obs.Gauges[r.Intn(len(obs.Gauges))]
+		if ga, err := storagetypes.GetGaugeAccount(g); err == nil {
+			add(o, &storagetypes.MsgBuyStorage{Creator: A(o), ForAddress: A(o), DurationDays: int64(30 + r.Intn(400)), Bytes: int64(1+r.Intn(30)) * 1_000_000_000, PaymentDenom: "ujkl", Referral: ga.String()})
+			add(o, bankSend(c.Accs[o].Addr, ga, sdk.NewCoins(sdk.NewInt64Coin("ujkl", int64(1+r.Intn(1_000_000_000))))))
+			add(o, bankSend(c.Accs[o].Addr, ga, sdk.NewCoins(sdk.NewInt64Coin("uatom", int64(1+r.Intn(1000))))))
+		}
+	}
 	if len(w.honest) > 0 {
 		h := w.honest[r.Intn(len(w.honest))]
 		idx, _ := w.Challenge(A(h.p), h.w)
@@ -503,9 +520,17 @@ func runC05(rc *RunCtx) {
 		return
 	}
 	honestRound := func() {
+		kept := w.honest[:0]
 		for _, h := range w.honest {
+			if rc.Chance(0.06) {
+				// this prover goes silent for good: the next reward blocks have to drop it
+				rc.Count("provers_gone_silent", 1)
+				continue
+			}
 			w.ProveHonest(h.p, h.w)
+			kept = append(kept, h)
 		}
+		w.honest = kept
 	}
 	// ---- bursts
 	nBursts := 4 + rc.Intn(4)
